@@ -253,6 +253,7 @@ func (g *c12Group) runCase(c *c12Case, wrapped message.HandlerFunc) {
 		if c.StartDelay > 0 {
 			time.Sleep(time.Duration(c.StartDelay))
 		}
+		c.msg.UUID = c.ID // redelivery family: the object is shared, the handler attributes by UUID
 		outs, err := wrapped(c.msg)
 		tret := g.now()
 		c.record(outs, err, tret)
@@ -495,6 +496,18 @@ func c12RunGroup(cases []*c12Case) {
 		c.CPre, c.CPost = -1, -1
 		c.Settle = -1
 		g.byUUID[c.ID] = c
+	}
+	if cases[0].Family == "redelivery" {
+		// the SAME message object (and its context, which only the harness may end) goes through the
+		// wrapped handler once per case: what Retry did to the message during one delivery must not
+		// decide the next one (MaxElapsedTime derives a context per call; the message keeps its own)
+		for i, c := range cases {
+			if i > 0 {
+				c.cancel() // the context made above for this case is not used
+				c.msg = cases[0].msg
+			}
+			c.cancel = func() {}
+		}
 	}
 	if cases[0].Mode == "router-close" {
 		g.runRouterClose(cases, r.Middleware)
@@ -818,6 +831,18 @@ func c12Generate(seed int64, scale int) [][]*c12Case {
 				cfg.MR, cfg.Init, cfg.MaxI = 1, 5*c12ms, 5*c12ms
 			}
 			add("boundary", c12pickMode(rng), cfg, 1+rng.Intn(3), func(i int, c *c12Case) { c.Script = c12randScript(rng, cfg.MR) })
+		}
+		// F9: redelivery: one message object delivered 2..3 times through the same wrapped handler,
+		// MaxElapsedTime set and far away, the message context alive throughout
+		for i := 0; i < 4; i++ {
+			cfg := c12smallCfg(rng)
+			cfg.ME = c12pick64(rng, 5000, 8000) * c12ms
+			if cfg.MR > 4 {
+				cfg.MR = 4
+			}
+			add("redelivery", "seq", cfg, 2+rng.Intn(2), func(i int, c *c12Case) {
+				c.Script = c12script(rng, 1+rng.Intn(cfg.MR+1), rng.Intn(2) == 0)
+			})
 		}
 	}
 	return groups
